@@ -58,8 +58,24 @@ def scenarios(ctx, n):
         first = head + (follow if glue else b"")
         for piece in sconnp.cut(first, sconnp.split_points(first, rng, rng.choice(["whole", "random"]))):
             ops.append("Q" + piece.hex())
-        for piece in sconnp.cut(res, sconnp.split_points(res, rng, rng.choice(["whole", "random"]))):
-            ops.append("S" + piece.hex())
+        eol = res.index(b"\n")
+        if follow and eol > 1 and rng.random() < 0.4:
+            # the client does not wait: request bytes are offered while the status line is still incomplete (cut anywhere inside it,
+            # also between the digits of the status code). The request side must answer DATA_OTHER / consumed 0 / no callback each time.
+            cuts = sorted(set(rng.randint(1, eol) for _ in range(rng.randint(1, 3))))
+            prev = 0
+            for cpos in cuts:
+                ops.append("S" + res[prev:cpos].hex())
+                ops.append("Q" + follow.hex())
+                prev = cpos
+            rest_res = res[prev:]
+            pieces = sconnp.cut(rest_res, sconnp.split_points(rest_res, rng, rng.choice(["whole", "random"])))
+            # keep the rest of the status line in one piece with its LF so that no further request data is due before the decision
+            for piece in pieces:
+                ops.append("S" + piece.hex())
+        else:
+            for piece in sconnp.cut(res, sconnp.split_points(res, rng, rng.choice(["whole", "random"]))):
+                ops.append("S" + piece.hex())
         # re-offer / continue the request stream after the response (the driver cannot react to DATA_OTHER inside a static
         # case, so the unconsumed rest is re-offered in full: with glue the CONNECT head was consumed and `follow` was not)
         rest = follow
